@@ -128,9 +128,10 @@ class StmtMixin:
             self.bind_target(target, v)
         elif isinstance(target, ast.Attribute):
             base = self.eval(target.value)
-            if isinstance(base, ZV) and target.attr in R.FIELDS:
-                arr = self.heap_array(target.attr)
-                st.heap[target.attr] = z3.Store(arr, base.term, as_v(v))
+            fld = isinstance(base, ZV) and R.field_for(base_tag(base.tag), target.attr)
+            if fld:
+                arr = self.heap_array(fld[0])
+                st.heap[fld[0]] = z3.Store(arr, base.term, as_v(v))
                 self.on_field_write(base, target.attr, v)
             else:
                 raise Unsupported("assignment to attribute %s (line %d)" % (target.attr, target.lineno))
@@ -430,9 +431,12 @@ class StmtMixin:
                 continue
             st.env[nme] = self.fresh_like(old, nme)
         for f in sorted(fields):
-            if f in R.FIELDS:
-                st.heap[f] = L.fresh("heap_" + f, z3.ArraySort(L.V, L.V))
-                self.heap_array(f)
+            e = R.FIELDS.get(f)
+            if e is None:
+                continue
+            for key in ([f] if isinstance(e, tuple) else [x[2] for x in e]):
+                self.heap_array(key)
+                st.heap[key] = L.fresh("heap_" + key, z3.ArraySort(L.V, L.V))
         for f in spec.get("havoc_fields", []):
             st.heap[f] = L.fresh("heap_" + f, z3.ArraySort(L.V, L.V))
         if spec.get("havoc_effects", self._loop_has_effects):
